@@ -24,7 +24,9 @@ package governance_test
 //   U  the same genesis but unfunded: InitConfig records the stake without any
 //      ONT moving, so the equality is off by that constant in every state
 //      (demanded: the difference never changes);
-//   Z  genesis InitPos=0 (exact equality).
+//   Z  genesis InitPos=0 (exact equality);
+//   H  like F with genesis stakes above 100000, so that a registered node can hold more authorised pos than
+//      its own init pos and still be ranked below the consensus nodes (paid by the candidate loop).
 
 import (
 	"bytes"
@@ -85,6 +87,10 @@ func c10PeerHex(i int) string {
 func c10GenesisPos(kind string, i int) uint64 {
 	if kind == "Z" {
 		return 0
+	}
+	if kind == "H" {
+		// high genesis stakes: a 10000-ONT candidate stays a candidate node even with 40000 ONT authorised to it
+		return uint64(112000 + (8-i)*100)
 	}
 	return uint64(12000 + (8-i)*100) // P1=12700 ... P7=12100: a 10000-ONT candidate needs >2100 authorised to enter consensus
 }
@@ -155,11 +161,11 @@ func c10Open(kind string) *c10Fix {
 	var gsum uint64
 	for i := 1; i <= 7; i++ {
 		gsum += c10GenesisPos(kind, i)
-		if kind == "F" {
+		if kind == "F" || kind == "H" {
 			fx.funded["G"+strconv.Itoa(i)] = c10GenesisPos(kind, i)
 		}
 	}
-	if kind == "F" && gsum > 0 {
+	if (kind == "F" || kind == "H") && gsum > 0 {
 		must("fund genesis stake", e.Call(c10Ont, "transfer", c10Transfer(adm, c10Gov, gsum), adm))
 	}
 	if kind == "U" {
